@@ -43,6 +43,7 @@ def run(prog, chk):
     chk.rule(C02.other_is_whole_input_event, prog, chk)  # every element tag of the output is a Start / Empty event: the class scan of the style pass sees all of them
     from props import strops
     chk.rule(strops.check_for, prog, chk, "C20")  # A14.str-ops: how this property's strings are cut up is a reviewed, frozen inventory
+    chk.rule(strops.check_evaluation_sites, prog, chk)  # the text of an author's <style> reaches the output as written: what is evaluated is a reviewed list of sites
 
 
 def _true_only_after(body, place, after_blocks, depth=5):
